@@ -458,6 +458,31 @@ fn well_formed(rep: &Report) {
     // generated NTv2 in both byte orders and both file orders: identical decode at every interior node
     let root = SubGrid { name: "ROOT".into(), parent: "NONE".into(), lat_s: 54., lat_n: 57., lon_w: 8., lon_e: 12., dlat: 1., dlon: 1., seed: 1 };
     let child = SubGrid { name: "CHILD".into(), parent: "ROOT".into(), lat_s: 55., lat_n: 56., lon_w: 9., lon_e: 11., dlat: 0.5, dlon: 0.5, seed: 2 };
+    // a well-formed file as any producer writing decimal bounds will create it: (north - south) / step is
+    // 2.9999999999999996 here, not 3: accepted, and decoded to the nodes written
+    for be in [false, true] {
+        let frac = SubGrid { name: "FRAC".into(), parent: "NONE".into(), lat_s: 54.3, lat_n: 54.3 + 3. * 0.1, lon_w: 8.3, lon_e: 8.3 + 6. * 0.2, dlat: 0.1, dlon: 0.2, seed: 606 };
+        rep.eval(1);
+        match catch(|| Ntv2Grid::new(&ntv2_bytes(std::slice::from_ref(&frac), be))) {
+            Ok(Ok(grid)) => {
+                let r = frac.reference();
+                for row in 1..r.rows - 1 {
+                    for col in 1..r.cols - 1 {
+                        let (lat, lon) = (r.lat_n - row as f64 * r.dlat, r.lon_w + col as f64 * r.dlon);
+                        rep.eval(1);
+                        match catch(|| grid.at(&Coor4D([lon, lat, 0., 0.]), 0.0)) {
+                            Ok(Some(v)) if (v[0] - r.node(row, col, 0)).abs() <= 1e-18 + 1e-9 * v[0].abs() && (v[1] - r.node(row, col, 1)).abs() <= 1e-18 + 1e-9 * v[1].abs() => {}
+                            other => rep.violation(
+                                "generated NTv2 node not decoded as written / decimal bounds",
+                                json!({"row": row, "col": col, "big_endian": be, "expected": [r.node(row, col, 0), r.node(row, col, 1)], "observed": format!("{other:?}")}),
+                            ),
+                        }
+                    }
+                }
+            }
+            other => rep.violation("generated well-formed NTv2 file rejected", json!({"big_endian": be, "shape": "single root, decimal bounds", "result": format!("{:?}", other.map(|r| r.map(|_| "grid").map_err(|e| e.to_string())))})),
+        }
+    }
     for be in [false, true] {
         for order in [[0, 1], [1, 0]] {
             let subs = [root.clone(), child.clone()];
